@@ -24,7 +24,10 @@ THEOREMS = [_T + n for n in [
     "C04_missing_rejected", "C04_different_clips_rejected", "C04_order_irrelevant",
     "C04_project_outsider_rejected", "C04_project_no_annotations_accepted",
     "C04_clip_eval_iff_subsets", "C04_unit_float_iff", "C04_unit_float_fin", "C04_clip_float_fin", "C04_clip_float_iff",
-    "C04_clip_float_nan", "C04_aoef_loaded_evaluation", "C04_aoef_loaded_project", "C04_aoef_numbers_agree", "C04_unit_table_float"]]
+    "C04_clip_float_nan", "C04_aoef_loaded_evaluation", "C04_aoef_loaded_project", "C04_aoef_numbers_agree", "C04_unit_table_float",
+    "C04_roles_separate", "C04_kinds_independent", "C04_shared_identifier", "C04_project_fast",
+    "C04_history_eval_no_effect", "C04_history_verdict", "C04_history_constructions_do_not_interfere",
+    "C04_history_set_ids", "C04_history_copy"]]
 LEVEL_TEXT = ("Lean theorems over a model of the validators written as the code decides (list length against set length, set "
               "equality, loop with early raise, ge/le), for identifiers of any type with decidable equality: a clip evaluation "
               "is accepted iff annotations and predictions share the clip, every annotated and every predicted sound event is "
@@ -34,29 +37,47 @@ LEVEL_TEXT = ("Lean theorems over a model of the validators written as the code 
               "empty clips, all-unmatched, perfect, duplicate, foreign, missing and cross-clip patterns and order independence; "
               "whatever an AOEF document contains, a collection that the loader model (C01's loadChecked) returns satisfies the "
               "relational conditions, and the numbers the AOEF adapters hand to the constructors are decided as by the "
-              "constructors. Tied to the code by: re-extracted ge/gt/le/lt metadata of every score-like field proved to accept "
+              "constructors; the target / source roles never mix (the decision is a conjunction of a target-side and a "
+              "source-side decision and is invariant under any injective renaming of either side, so a prediction carrying the "
+              "uuid of an annotation changes nothing); in a session on live objects that are appended to, assigned, copied "
+              "(store semantics runHistory) every construction is decided on what the objects carry at that moment, "
+              "constructions do not interfere and leave the objects unchanged. Tied to the code by: re-extracted ge/gt/le/lt metadata of every score-like field proved to accept "
               "exactly [0,1] (over the rationals, or on binary64 values); symbolic traces, proved equal to the model for all "
               "inputs, of the clip-time validator, of the ClipEvaluation and AnnotationProject validators on symbolic "
               "identifiers for every small shape, of the Match validator on every side pattern and of the AOEF adapters' "
               "number hand-over; exhaustive small arrangements realised through constructor, model_validate, "
               "model_validate_json and soundevent.io.load of edited AOEF documents of every collection type (accept/reject "
-              "equal on every path, accepted object equal to the input).")
+              "equal on every path, accepted object equal to the input), also with identifiers shared across kinds, "
+              "attribute objects, numpy / Decimal / Fraction / bool numbers, tuples, long lists, tolerance-sized offsets; "
+              "sessions on reused objects compared step by step with the store model.")
 LEVEL_NOTE = ("Holds on /repo with fixes/C04-1 applied (Clip._validate_times validated raw input: numeric strings bypassed "
               "it). Trusted: Lean kernel; pydantic-core's typed parsing and its application of ge/le metadata and validators "
               "(observed on four construction paths, not modelled from source); the symbolic tracer; C01's correspondence for "
               "the loader model the AOEF theorems speak about. A clip with a nan time is accepted by the code (no comparison "
-              "with nan is true); modelled, not judged. Unmodelled: assignment after construction, model_construct / "
-              "model_copy(update=...), whole AOEF documents with numbers (numbers are tied per adapter). Symbolic ties of the "
-              "relational validators cover the listed small shapes; larger arrangements are tied by generator-bounded "
-              "correspondence.")
-TECHNIQUE = ("Lean 4 proof over model; field-constraint table regenerated by introspection and proved to mean [0,1]; symbolic "
+              "with nan is true); modelled, not judged. Assignment and model_copy(update=...) are modelled as changes of the "
+              "objects a later construction is built from (sessions), not as constructions: an object changed that way is never "
+              "itself validated (pydantic) and is not judged; model_construct is unmodelled; whole AOEF documents with numbers "
+              "are tied per adapter. Symbolic ties of the relational validators cover the listed small shapes; larger "
+              "arrangements (up to 1025 / 2049 sound events) and sessions are tied by generator-bounded correspondence. "
+              "Match.model_validate(obj, from_attributes=True) raises AttributeError (its before-validator expects a mapping): "
+              "nothing is constructed, attribute objects are exercised on every other class.")
+TECHNIQUE = ("Lean 4 proof over model (incl. a store semantics of sessions on reused objects); field-constraint table regenerated by introspection and proved to mean [0,1]; symbolic "
              "traces of the clip-time, clip-evaluation, project and match validators and of the AOEF adapters proved equal to "
              "the model; exhaustive small-scope correspondence through four construction paths and every AOEF collection type")
 RULE = ("exhaustive arrangements of <= 3+3 sound events and <= 4 matches (missing / duplicated / foreign / one-sided / "
         "null-null), clip pairings, identity decoupling (shared sound event, same uuid with other content), task/annotation "
         "memberships, start/end grids, scores around 0 and 1 incl. denormals, nan and infinities, each through constructor, "
-        "model_validate, model_validate_json, AOEF load; non-trivial = the construction was accepted, or was rejected although "
-        "every nested object was valid; distinct = distinct (operation, input incl. path)")
+        "model_validate, model_validate_json, AOEF load; identifiers shared between annotated and predicted sound events "
+        "(exhaustive over one universe); pairwise products of path x null style x aliasing x shared match object x container "
+        "form (tuple / nested / reversed keys) x shared identifiers x clip pairing x positional io.load x optional numbers x "
+        "optional fields x mapping validated twice; 16..1025 (thorough 2049) sound events / tasks; start/end and scores one ulp "
+        "and 2^-52..10^-3 from every comparison at magnitudes 1e-9..1e15, exact ties, every 1/100 and 1/64; numbers as numpy "
+        "scalars / bool / Decimal / Fraction / bytes; attribute objects (namespace, slots, namedtuple, dataclass, class-level, "
+        "property) through from_attributes; sessions: live ClipAnnotation / ClipPrediction / Match / task objects used, changed "
+        "(append, slice, assignment, model_copy shallow / deep, copy, deepcopy, pickle, dump-and-validate) and used again, "
+        "arguments snapshotted around every construction, results poisoned and read again after later constructions; x / "
+        "neighbour / x sequences of every operation on the same uuids; non-trivial = the construction was accepted, or was "
+        "rejected although every nested object was valid; distinct = distinct (operation, input incl. path)")
 TRUSTED = ["pydantic-core: typed parsing (lax coercion of int / numeric strings to float), application of annotated ge/le "
            "constraints and of model validators", "json (repr round trip of binary64)",
            "soundevent.io.save used once per collection type to produce the valid AOEF documents that are then edited"]
@@ -64,7 +85,11 @@ ASSUMPTIONS = ["uuid5 of distinct abstract identifiers are distinct", "the edite
                "present in their tables (dangling references belong to C02; for the loader model they are covered by "
                "C04_aoef_loaded_evaluation / C04_aoef_loaded_project)"]
 NOT_COMPARED = ["which validator rejects and the error message / class (only accept / reject)",
-                "the decision on a clip with a nan time", "assignment after construction, model_construct"]
+                "the decision on a clip with a nan time",
+                "objects produced by assignment / model_copy(update=...) / model_construct themselves (pydantic validates none "
+                "of them); what is compared is every construction that is later built from such objects",
+                "Match.model_validate(obj, from_attributes=True) (AttributeError today, nothing constructed)",
+                "whether a validator changes the mapping it was given, beyond: validating the same mapping twice decides the same"]
 
 NS = _uuid.UUID(int=0xC04)
 DT = datetime.datetime(2020, 1, 2, 3, 4, 5)
@@ -158,6 +183,9 @@ TERM_D = {"label": "species", "name": "dwc:species", "definition": "d"}
 TAG_D = {"term": TERM_D, "value": "x"}
 
 
+FEAT_D = {"term": TERM_D, "value": 1.5}        # a feature value is not a score: no range
+
+
 def clip_d(c, start=0.0, end=5.0):
     return {"uuid": U(c), "recording": REC_D, "start_time": start, "end_time": end}
 
@@ -221,6 +249,11 @@ def SE(e, alias=None):
 def TAG():
     from soundevent import data
     return _cached("tag", lambda: data.Tag(term=data.Term(**TERM_D), value="x"))
+
+
+def FEAT():
+    from soundevent import data
+    return data.Feature(term=data.Term(**TERM_D), value=1.5)
 
 
 def PTAG(score=0.5):
@@ -411,7 +444,7 @@ def _match_keys(inp):
     return [first.setdefault(json.dumps(m, sort_keys=True), k) for k, m in enumerate(ms)]
 
 
-def _match_kwargs(m, k, nulls, as_obj, form="float", alias=None):
+def _match_kwargs(m, k, nulls, as_obj, form="float", alias=None, rich=False):
     d = {"uuid": U(f"m{k}")}
     var = alias == "match_content"
     role = "" if alias == "same_obj" else "match"       # same_obj: the very instance that the clip annotation lists
@@ -428,6 +461,8 @@ def _match_kwargs(m, k, nulls, as_obj, form="float", alias=None):
         d["score"] = _num(m["score"], form)
     elif nulls == "explicit":
         d["score"] = None
+    if rich:
+        d["metrics"] = [FEAT() if as_obj else FEAT_D]
     return d
 
 
@@ -440,11 +475,18 @@ def _clip_eval_dict(inp):
                          "sound_events": [ann_d(a, alias) for a in inp["ann_ids"]]},
          "predictions": {"uuid": U("CP0"), "clip": clip_d(inp["pred_clip"], end=pred_end),
                          "sound_events": [pred_d(p, alias=alias) for p in inp["pred_ids"]]},
-         "matches": [_match_kwargs(m, k, nulls, False, alias=alias) for k, m in zip(_match_keys(inp), inp["matches"])]}
+         "matches": [_match_kwargs(m, k, nulls, False, alias=alias, rich=bool(inp.get("rich")))
+                     for k, m in zip(_match_keys(inp), inp["matches"])]}
     if inp.get("score") is not None:
         d["score"] = _num(inp["score"])
     elif nulls == "explicit":
         d["score"] = None
+    if inp.get("rich"):       # the optional fields next to the validated ones are filled in
+        d["metrics"] = [FEAT_D]
+        d["annotations"]["tags"] = [TAG_D]
+        d["annotations"]["notes"] = [{"uuid": U("note"), "message": "n", "created_on": DT.isoformat()}]
+        d["predictions"]["tags"] = [ptag_d()]
+        d["predictions"]["features"] = [FEAT_D]
     return d
 
 
@@ -576,18 +618,21 @@ def _clip_eval_objects(inp):
     alias = inp.get("alias")
     cont = inp.get("cont")
     ev_alias = None if alias == "same_obj" else alias
+    rich = bool(inp.get("rich"))
+    ra = {"tags": [TAG()], "notes": [data.Note(uuid=U("note"), message="n", created_on=DT)]} if rich else {}
+    rp = {"tags": [PTAG()], "features": [FEAT()]} if rich else {}
     ca = data.ClipAnnotation(uuid=U("CA0"), clip=CLIP(inp["ann_clip"], "ann"), created_on=DT,
-                             sound_events=_seq([ANN(a, alias=ev_alias) for a in inp["ann_ids"]], cont))
+                             sound_events=_seq([ANN(a, alias=ev_alias) for a in inp["ann_ids"]], cont), **ra)
     cp = data.ClipPrediction(uuid=U("CP0"), sound_events=_seq([PRED(p, alias=ev_alias) for p in inp["pred_ids"]], cont),
-                             clip=CLIP(inp["pred_clip"], "pred", end=4.0 if alias == "clip_content" else 5.0))
+                             clip=CLIP(inp["pred_clip"], "pred", end=4.0 if alias == "clip_content" else 5.0), **rp)
     built = {}
     ms = []
     for k, m in zip(_match_keys(inp), inp["matches"]):
         if k not in built:
-            kw = _match_kwargs(m, k, nulls, True, alias=alias)
+            kw = _match_kwargs(m, k, nulls, True, alias=alias, rich=rich)
             built[k] = kw if cont == "nested" else _attempt(lambda kw=kw: data.Match(**kw))
         ms.append(built[k])
-    kw = {}
+    kw = {"metrics": [FEAT()]} if rich else {}
     if inp.get("score") is not None:
         kw["score"] = _num(inp["score"])
     elif nulls == "explicit":
@@ -615,6 +660,11 @@ def _make_clip_eval(inp):
                 d = _tuples(d)
             elif cont == "rev":
                 d = _rev_keys(d)
+        if inp.get("twice"):      # the caller's mapping is validated a second time: it must still say the same
+            try:
+                data.ClipEvaluation.model_validate(d)
+            except Exception:  # noqa: BLE001
+                pass
         return _attempt(lambda: data.ClipEvaluation.model_validate(d))
     if path == "json":
         d = _clip_eval_dict(inp)
@@ -664,7 +714,13 @@ def _make_match(inp):
     if path == "ctor":
         return _attempt(lambda: data.Match(**_match_kwargs(inp, 0, nulls, True, form)))
     if path == "dict":
-        return _attempt(lambda: data.Match.model_validate(_match_kwargs(inp, 0, nulls, False, form)))
+        d = _match_kwargs(inp, 0, nulls, False, form)
+        if inp.get("twice"):
+            try:
+                data.Match.model_validate(d)
+            except Exception:  # noqa: BLE001
+                pass
+        return _attempt(lambda: data.Match.model_validate(d))
     if path == "json":
         return _attempt(lambda: data.Match.model_validate_json(json.dumps(_match_kwargs(inp, 0, nulls, False, form))))
     if path == "aoef":
@@ -886,7 +942,8 @@ _impl_unit = _impl_of(_make_unit, _canon_unit)
 # ------------------------------------------------------------------ annotation projects
 def _project_dict(inp):
     end = 4.0 if inp.get("alias") == "clip_content" else 5.0
-    return {"uuid": U("PROJ"), "name": "p", "created_on": DT.isoformat(),
+    rich = {"description": "d", "instructions": "i", "annotation_tags": [TAG_D]} if inp.get("rich") else {}
+    return {"uuid": U("PROJ"), "name": "p", "created_on": DT.isoformat(), **rich,
             "tasks": [{"uuid": U(f"task{k}"), "clip": clip_d(c), "created_on": DT.isoformat()}
                       for k, c in enumerate(inp["task_clips"])],
             "clip_annotations": [{"uuid": U(f"pca{k}"), "clip": clip_d(c, end=end), "created_on": DT.isoformat()}
@@ -910,11 +967,17 @@ def _make_project(inp):
     cont = inp.get("cont")
     if path == "ctor":
         tasks, cas = _project_objects(inp)
+        rich = {"description": "d", "instructions": "i", "annotation_tags": [TAG()]} if inp.get("rich") else {}
         return _attempt(lambda: data.AnnotationProject(uuid=U("PROJ"), name="p", created_on=DT, tasks=tasks,
-                                                       clip_annotations=cas))
+                                                       clip_annotations=cas, **rich))
     if path == "dict":
         d = _project_dict(inp)
         d = _tuples(d) if cont == "tuple" else _rev_keys(d) if cont == "rev" else d
+        if inp.get("twice"):
+            try:
+                data.AnnotationProject.model_validate(d)
+            except Exception:  # noqa: BLE001
+                pass
         return _attempt(lambda: data.AnnotationProject.model_validate(d))
     if path == "json":
         d = _project_dict(inp)
@@ -962,8 +1025,13 @@ def _make_clip(inp):
     if path == "ctor":
         return _attempt(lambda: data.Clip(uuid=U("c0"), recording=REC(), start_time=s, end_time=e))
     if path == "dict":
-        return _attempt(lambda: data.Clip.model_validate({**clip_d("c0", s, e), "recording": REC()}
-                                                         if inp.get("cont") == "nested" else clip_d("c0", s, e)))
+        d = {**clip_d("c0", s, e), "recording": REC()} if inp.get("cont") == "nested" else clip_d("c0", s, e)
+        if inp.get("twice"):
+            try:
+                data.Clip.model_validate(d)
+            except Exception:  # noqa: BLE001
+                pass
+        return _attempt(lambda: data.Clip.model_validate(d))
     if path == "json":
         return _attempt(lambda: data.Clip.model_validate_json(json.dumps(clip_d("c0", s, e))))
     if path.startswith("attrs"):
@@ -1093,14 +1161,14 @@ def _cmp_clip_f(inp, io, mo):
 
 
 OPS = {
-    "clip_eval": Op("clip_eval", _impl_clip_eval, to_model=_strip("path", "nulls", "share", "alias", "cont", "load_call"), nontrivial=_nontrivial_accept,
+    "clip_eval": Op("clip_eval", _impl_clip_eval, to_model=_strip("path", "nulls", "share", "alias", "cont", "load_call", "rich", "twice"), nontrivial=_nontrivial_accept,
                     shrink=True, compare=_cmp_decision("a well-formed clip evaluation", "a clip evaluation whose matches do "
                                                        "not cover each sound event exactly once / with other clips / bad numbers")),
-    "match": Op("match", _impl_match, to_model=_strip("path", "nulls", "form"), nontrivial=_nontrivial_accept,
+    "match": Op("match", _impl_match, to_model=_strip("path", "nulls", "form", "twice"), nontrivial=_nontrivial_accept,
                 compare=_cmp_decision("a match with a side and numbers in [0,1]", "a match without sides or with a number outside [0,1]")),
     "unit": Op("unit", _impl_unit, to_model=lambda i: {"x": i["x"]}, nontrivial=_nontrivial_accept,
                compare=_cmp_decision("a value in [0,1]", "a score / affinity / probability outside [0,1]")),
-    "project": Op("project", _impl_project, to_model=_strip("path", "alias", "cont", "load_call"), nontrivial=_nontrivial_accept, shrink=True,
+    "project": Op("project", _impl_project, to_model=_strip("path", "alias", "cont", "load_call", "rich", "twice"), nontrivial=_nontrivial_accept, shrink=True,
                   compare=_cmp_decision("a project whose annotated clips all have tasks", "a project with an annotation of a clip without a task")),
     "clip": Op("clip", _impl_clip, to_model=lambda i: {"start": i["start"], "end": i["end"]},
                nontrivial=_nontrivial_accept,
@@ -1162,6 +1230,28 @@ def _coll_new(kind, clip, ids, via):
     if via == "ctor":
         kw = {"created_on": DT} if kind == "ann" else {}
         return cls(uuid=U("CA0" if kind == "ann" else "CP0"), clip=CLIP(clip, kind), sound_events=_coll_members(kind, ids), **kw)
+    if via == "aoef":          # an object that came out of soundevent.io.load
+        coll = "annotation_set" if kind == "ann" else "prediction_set"
+        doc = json.loads(_collection_template(coll))
+        D = doc["data"]
+        table = "sound_event_annotations" if kind == "ann" else "sound_event_predictions"
+        proto = D[table][0]
+        s0 = _by_uuid(D["sound_events"], proto["sound_event"])
+        have, have_s = {o["uuid"] for o in D[table]}, {o["uuid"] for o in D["sound_events"]}
+        for n in ids:
+            if U(n) not in have:
+                have.add(U(n))
+                if se_uuid(n) not in have_s:
+                    have_s.add(se_uuid(n))
+                    D["sound_events"].append({**s0, "uuid": se_uuid(n)})
+                D[table].append({**proto, "uuid": U(n), "sound_event": se_uuid(n)})
+        if U(clip) not in {o["uuid"] for o in D["clips"]}:
+            D["clips"].append({**_by_uuid(D["clips"], U("c0")), "uuid": U(clip)})
+        key = "clip_annotations" if kind == "ann" else "clip_predictions"
+        o = _by_uuid(D[key], U("CA0" if kind == "ann" else "CP0"))
+        o["clip"], o["sound_events"] = U(clip), [U(n) for n in ids]
+        loaded = _load_doc(doc, coll)
+        return next(x for x in getattr(loaded, key) if str(x.uuid) == o["uuid"])
     d = {"uuid": U("CA0" if kind == "ann" else "CP0"), "clip": clip_d(clip),
          "sound_events": [ann_d(a) if kind == "ann" else pred_d(a) for a in ids]}
     if kind == "ann":
@@ -1692,6 +1782,7 @@ def _model_validators(cls):
 def _run_validators(cls, after_stub, before_values):
     """every model validator of `cls` (whatever its name), in declaration order: before-mode ones on the raw mapping,
     after-mode ones on the stub"""
+    _forget_memos(cls)
     for _name, dec in _model_validators(cls).items():
         fn = dec.func
         if dec.info.mode == "before":
@@ -1712,21 +1803,36 @@ _SHAPE_ERRORS = (AttributeError, TypeError, KeyError, IndexError, LookupError)
 
 def _soft_sym_tie(ctx, name, thunk, variables, model_term, tactic, op):
     """a symbolic tie that depends on the shape of the validated object: when the current source can no longer be
-    traced on the stub (it reads something the stub lacks, formats or hashes an identifier) the tie is reported as not
-    re-established in the evidence and the exhaustive correspondence over the same shapes remains the tie; when it can be
-    traced, the proof of equality with the model is an obligation like any other"""
+    traced on the stub (it reads something the stub lacks, formats or hashes an identifier, keeps state between calls so
+    that the paths do not close) the tie is reported as not re-established in the evidence and the exhaustive
+    correspondence over the same shapes remains the tie; when it can be traced, the proof of equality with the model is
+    an obligation like any other"""
     from .. import symtrace as st
     from ..leanio import InfraError
     try:
-        st.trace(thunk, catch=(ValueError, AssertionError), max_paths=3000)
+        src, _tree, n = st.extract(name, thunk, variables, "Bool", catch=(ValueError, AssertionError))
     except InfraError:
         raise
     except Exception as e:  # noqa: BLE001
         ctx.symbolic_ties[name] = {"not_re_established": repr(e)[:200]}
         ctx.tally("symbolic tie not re-established (shape): " + name.split("_n")[0])
         return
-    ctx.sym_tie(name, thunk, variables, "Bool", model_term, tactic=tactic, meta={"op": op},
-                catch=(ValueError, AssertionError))
+    ctx.symbolic_ties[name] = {"paths": n}
+    ctx.obligation(name, st.tie_obligation(name, src, variables, model_term, (), tactic=tactic), {"op": op})
+
+
+def _forget_memos(cls):
+    """functools caches of the module that defines `cls` are emptied before a symbolic run: a (correct) memo keyed by the
+    full input would otherwise carry symbolic keys from one path into the next"""
+    import sys
+    mod = sys.modules.get(getattr(cls, "__module__", ""), None)
+    for v in list(vars(mod).values()) if mod is not None else []:
+        clear = getattr(v, "cache_clear", None)
+        if callable(clear):
+            try:
+                clear()
+            except Exception:  # noqa: BLE001
+                pass
 
 
 SIDE_PATTERNS = [(1, 1), (0, 1), (1, 0), (0, 0)]
@@ -2294,6 +2400,10 @@ PRODUCT_DIMS = {
     "shared": [None, "pair", "cross", "foreign"],
     "pred_clip": ["c0", "c1"],
     "load_call": [None, "positional"],
+    "score": [None, "1/2", "0", "1"],          # the optional numbers given or not
+    "mscore": [None, "1"],
+    "rich": [False, True],                      # the optional fields next to the validated ones filled in or not
+    "twice": [False, True],                     # the caller's mapping validated a second time
 }
 
 
@@ -2307,7 +2417,12 @@ def _product_cases(ctx, full=False):
     def mk(fam, opt):
         na, np_, combo = fam
         c = _arr_case(na, np_, combo, opt["path"], pred_clip=opt["pred_clip"], nulls=opt["nulls"], share=opt["share"],
-                      alias=opt["alias"])
+                      alias=opt["alias"], score=opt["score"],
+                      numbers={("score", i): opt["mscore"] for i in range(len(combo))} if opt["mscore"] else None)
+        if opt["rich"] and opt["path"] != "aoef":
+            c["rich"] = True
+        if opt["twice"] and opt["path"] == "dict":
+            c["twice"] = True
         if opt["cont"]:
             c["cont"] = opt["cont"]
         if opt["load_call"] and opt["path"] == "aoef":
@@ -2355,6 +2470,8 @@ def _size_cases(ctx):
         }
         all_paths = n in (17, 257, 1025)
         for fam, (a_, p_, combo) in fams.items():
+            if not ctx.thorough() and not all_paths and fam not in ("perfect", "missing-last", "dup-swapped", "dup-last"):
+                continue          # quick: every family just above a threshold, the main ones at it
             paths = ["ctor"]
             if all_paths and fam in ("perfect", "missing-last", "dup-swapped", "shared-ids-one-sided"):
                 paths = PATHS if (n < 1000 or ctx.thorough()) else (["ctor", "dict", "json"] if fam in ("perfect", "dup-swapped") else ["ctor"])
@@ -2470,6 +2587,7 @@ def _clip_form_cases():
         for kind in ATTR_KINDS:
             yield {"path": "attrs:" + kind, "start": rat(s_), "end": rat(e_)}
         yield {"path": "dict", "start": rat(s_), "end": rat(e_), "cont": "nested"}
+        yield {"path": "dict", "start": rat(s_), "end": rat(e_), "twice": True}
         yield {"path": "aoef", "start": rat(s_), "end": rat(e_), "load_call": "positional"}
 
 
@@ -2483,6 +2601,9 @@ def _match_form_cases():
                             yield {"path": path, "source": s_, "target": t_, "affinity": rat(x), "score": None, "form": form}
                             if form_ok("1", form):
                                 yield {"path": path, "source": s_, "target": t_, "affinity": "1", "score": rat(x), "form": form}
+    for c in _match_cases():
+        if c["path"] == "dict":
+            yield {**c, "twice": True}
     # a match between a prediction and an annotation that carry one uuid
     for path in PATHS:
         yield {"path": path, "source": "a0", "target": "a0", "affinity": "1/2", "score": None}
@@ -2500,6 +2621,9 @@ def _project_unusual_cases():
                     for path, cont in (("ctor", "tuple"), ("dict", "tuple"), ("dict", "rev"), ("json", "rev"), ("aoef", "rev")):
                         yield {"path": path, "task_clips": list(tc), "ann_clips": list(ac), "cont": cont}
                     yield {"path": "aoef", "task_clips": list(tc), "ann_clips": list(ac), "load_call": "positional"}
+                    for path in ("ctor", "dict", "json"):
+                        yield {"path": path, "task_clips": list(tc), "ann_clips": list(ac), "rich": True}
+                    yield {"path": "dict", "task_clips": list(tc), "ann_clips": list(ac), "twice": True}
 
 
 def _clip_eval_attr_cases(ctx):
@@ -2537,7 +2661,7 @@ def _scripted_sessions():
         for what, how in changes:
             for dname, (old, new) in directions.items():
                 path = EVAL_PATHS[k % len(EVAL_PATHS)]
-                via = ("ctor", "dict", "json")[k % 3]
+                via = ("ctor", "dict", "json", "aoef")[k % 4]
                 k += 1
                 pre = "a" if kind == "ann" else "p"
                 o_ids = [pre + x[1:] for x in old]
@@ -2578,6 +2702,8 @@ def _random_session(rng):
     def some_ids(kind):
         ids = [n for n in names[kind] if rng.random() < 0.45]
         rng.shuffle(ids)
+        if ids and rng.random() < 0.08:
+            ids.append(ids[0])        # the same sound event listed twice
         return ids
 
     def bind(hd, kind, clip, ids):
@@ -2585,7 +2711,7 @@ def _random_session(rng):
         past.setdefault(hd, []).append(list(ids))
     for hd, kind in ((0, "ann"), (1, "pred")):
         ids = some_ids(kind)
-        steps.append({"do": "new", "h": hd, "kind": kind, "clip": "c0", "ids": ids, "via": rng.choice(["ctor", "ctor", "dict", "json"])})
+        steps.append({"do": "new", "h": hd, "kind": kind, "clip": "c0", "ids": ids, "via": rng.choice(["ctor", "ctor", "dict", "json", "aoef"])})
         bind(hd, kind, "c0", ids)
     n_ev = 0
     while n_ev < rng.randint(3, 7) and len(steps) < 24:
@@ -2896,4 +3022,7 @@ def search(ctx, failures):
     ctx.run_cases(OPS["clip"], _clip_cases(forms))
     ctx.run_cases(OPS["match"], _match_cases())
     ctx.run_cases(OPS["clip_eval"], _clip_eval_cases(ctx, 2, 2))
+    ctx.run_cases(OPS["clip_eval"], _shared_cases(ctx, ["a0", "a1"], 2))
     ctx.run_cases(OPS["project"], _project_cases(2, 2))
+    ctx.run_cases(OPS["clip_eval_history"], [h for h in _scripted_sessions() if _session_valid(h)])
+    ctx.run_cases(OPS["clip"], _clip_ladder_cases(["ctor", "aoef"]))
